@@ -405,10 +405,27 @@ fn run_id_history(case: &str, r: &mut Rng, xml: Option<String>, ops_in: Option<V
     let mut ops: Vec<Op> = vec![];
     let mut obs: Vec<String> = vec![];
     for k in 0..nsteps {
-        let op = match &ops_in { Some(v) => v[k].clone(), None => gen_op(r, &st, &pool, &cfg) };
+        // (every third history starts by cloning the parsed document itself: the index belongs to the parsed document, a clone
+        // has none of its own and must never answer with nodes of another tree)
+        let op = match &ops_in { Some(v) => v[k].clone(), None => if k == 0 && r.chance(1, 3) { Op::CloneNode(doc_h) } else { gen_op(r, &st, &pool, &cfg) } };
         let outcome = exec(&mut st, &op);
         st.refresh();
         stats.bump(&format!("op.{}", op_str(&op).split(' ').next().unwrap()));
+        // oracle only: whatever document node the index is asked through, an answer is a node of that document
+        for rh in st.roots() {
+            let rn = st.known[&rh];
+            if rh == doc_h || !st.xot.is_document(rn) { continue; }
+            for (id, _) in &ids {
+                if let Ok(Some(n)) = guard(|| st.xot.xml_id_node(rn, id)) {
+                    stats.bump("idstream.answer_through_other_document");
+                    let mut top = n;
+                    while let Some(p) = st.xot.parent(top) { top = p; }
+                    if top != rn {
+                        out.fail(case, "xml-id-answer-outside-document", &format!("after step {} `{}`: xml_id_node({}, {:?}) returned {}, a node of another tree", k, op_str(&op), hs(rh), id, hs(handle(n))));
+                    }
+                }
+            }
+        }
         let mut answers: Vec<String> = vec![];
         for (id, h0) in &ids {
             let doc_node = st.known[&doc_h];
@@ -850,6 +867,15 @@ pub fn main_c12() {
         out.imp(&format!("{} {}", case, obs));
         // Xot::clone: an independent store in which every handle denotes an equal node
         xot_clone_check(&case, &mut r, &start, &pool, &mut out, &mut stats);
+        // a clone of a PARSED document (which has an xml:id index): the index must never lead from the clone into the source
+        // (oracle only: the model of this stream has no parser)
+        if k % 3 == 0 {
+            let mut r2 = base.fork(0x1D00_0000 + k as u64);
+            if let Some((line, _)) = run_id_history(&format!("c{}i", k), &mut r2, None, None, 8, &mut out, &mut stats) {
+                out.oracle_case(&line);
+                stats.bump("c12.parsed_document_clone_probes");
+            }
+        }
     }
     out.finish(&stats);
 }
